@@ -98,6 +98,25 @@ theorem C13_deterministic (W : Cfg) (t : Tmpl) (d : DNA) (v₁ v₂ : Tmpl)
     (h₁ : decode W t d = .ok v₁) (h₂ : decode W t d = .ok v₂) : v₁ = v₂ := by
   rw [h₁] at h₂; cases h₂; rfl
 
+/-! ## Purity: histories of calls -/
+
+theorem runOps_append (W : Cfg) (t : Tmpl) (a b : List Op) :
+    runOps W t (a ++ b) = runOps W t a ++ runOps W t b := by
+  induction a with
+  | nil => rfl
+  | cons o os ih => cases o <;> simp [runOps, ih]
+
+/-- decode is a function of (template, filter / hooks, DNA): whatever calls came before — other
+decodes, encodes, of any DNAs and values — the result of decoding `d` is `decode W t d`. On the code
+this is checked by three-step histories on one DNA (decode; `random_dna` / `next_dna` of every custom
+/ evolvable placeholder with that DNA as parent and an in-place edit of another decoded value; decode
+again, compared with a snapshot), which also check that results share no mutable state with the
+template or with each other. -/
+theorem C13_history_independent (W : Cfg) (t : Tmpl) (pre : List Op) (d : DNA) :
+    (runOps W t (pre ++ [.decode d])).getLast? = some (.value (decode W t d)) := by
+  rw [runOps_append]
+  simp [runOps]
+
 /-! ## Encode after decode -/
 
 /-- The property at full strength: for a distinguishable template, every DNA object accepted by
